@@ -1,4 +1,5 @@
 import Hostd.Props.C01
+import Hostd.Lemmas.ChainTotal
 /-!
 C01 for the store model, with the well-formedness hypothesis stated on the *global* history — the
 decidable predicates `wfApplyP` / `wfRevertP` (`Model/Chain.lean`) that the driver evaluates on every
@@ -7,7 +8,11 @@ generated block against the best-chain spec state.
 * `specG_proj`      the best-chain spec of the store model projects, contract by contract, onto the
                     per-contract spec `specTop`;
 * `WFG_proj`        a globally well-formed history is well-formed for every stored contract;
-* `C01_global_best_chain_wf`  hence every stored contract reports the chain view of the best chain.
+* `C01_global_best_chain_wf`  hence every stored contract reports the chain view of the best chain;
+* `C01_wf_update_never_fails`  and processing such a history never returns an error or panics: the
+                    store model's `runG` is total on globally well-formed histories (per-contract
+                    totality from `Props/C01.lean`, no negative metric from `Props/C05.lean`, composed
+                    stage by stage in `Lemmas/ChainTotal.lean`).
 -/
 namespace Hostd.Chain
 
@@ -157,6 +162,149 @@ theorem C01_global_best_chain_wf (rb : Nat) (ops : List GOp) (s s' : State) (hk 
   obtain ⟨hw, hnd⟩ := WFG_proj hfind ops [] (by simp) hwf
   exact C01_global_best_chain rb ops s s' hk hnd hrun v i c0 hfind hf hw
 
+/-! ### totality: a well-formed history never faults -/
+
+/-- what the induction carries: the state reached after the operations so far, against the chain `stk` -/
+structure TInv (s0 : State) (stk : List (Nat × Changes)) (s : State) : Prop where
+  keys : KeysNodup s.cs
+  minv : MInv s
+  same : s.cs.map keyOf = s0.cs.map keyOf
+  nodup : ∀ b ∈ stk, ListsNodup b.2
+  rows : ∀ v i c0, findC v i s0.cs = some c0 →
+    WFstack c0 (projStk v i stk) ∧
+    ∃ c X, findC v i s.cs = some c ∧ specTop c0 (projStk v i stk) = .ok X ∧ norm c = norm X
+
+theorem findC_of_keys {s s0 : State} (hsame : s.cs.map keyOf = s0.cs.map keyOf) {v : Ver} {i : Nat} {c : Contract}
+    (hf : findC v i s.cs = some c) : ∃ c0, findC v i s0.cs = some c0 := by
+  have : (findC v i s0.cs).isSome = true := by
+    rw [← isSome_of_keys hsame, hf]; rfl
+  cases h : findC v i s0.cs with
+  | none => rw [h] at this; cases this
+  | some c0 => exact ⟨c0, rfl⟩
+
+theorem TInv_step {s0 : State} (hfresh : ∀ v i c0, findC v i s0.cs = some c0 → Fresh c0) (rb : Nat)
+    {stk : List (Nat × Changes)} {s : State} (hinv : TInv s0 stk s) {op : GOp} (hop : wfStepG s0 stk op) :
+    ∃ s1, stepG rb s op = .ok s1 ∧ TInv s0 (nextG stk op) s1 := by
+  -- the per-contract step succeeds for every stored contract, and re-establishes the row invariant
+  have hper : ∀ v i c0, findC v i s0.cs = some c0 →
+      wfStep c0 (projStk v i stk) (projOp v i op) := by
+    intro v i c0 hfind
+    cases op with
+    | apply h ch =>
+      obtain ⟨X, hX, hwf⟩ := hop
+      obtain ⟨Xc, hspec, hfc⟩ := specG_proj hfind stk X hinv.nodup hX
+      simp only [wfApplyP, Bool.and_eq_true] at hwf
+      have := findC_mem_all hwf.2 hfc
+      obtain ⟨hv, hi⟩ := findC_some_ver_id hfc
+      simp only [hv, hi] at this
+      exact ⟨Xc, hspec, this⟩
+    | revert h ch' =>
+      obtain ⟨ch, below, Xb, rfl, hXb, hwf⟩ := hop
+      obtain ⟨Xc, hspec, hfc⟩ := specG_proj hfind below Xb (fun b hb => hinv.nodup b (List.mem_cons_of_mem _ hb)) hXb
+      simp only [wfRevertP, Bool.and_eq_true] at hwf
+      have := findC_mem_all hwf.2 hfc
+      obtain ⟨hv, hi⟩ := findC_some_ver_id hfc
+      simp only [hv, hi] at this
+      exact ⟨eventsFor v i ch, projStk v i below, Xc, by simp [projStk], hspec, this⟩
+  have hstep : ∀ v i c0, findC v i s0.cs = some c0 →
+      WFstack c0 (nextStk (projStk v i stk) (projOp v i op)) ∧
+      ∃ c c1 X1, findC v i s.cs = some c ∧ stepH codeTable rb c (projOp v i op) = .ok c1 ∧
+        specTop c0 (nextStk (projStk v i stk) (projOp v i op)) = .ok X1 ∧ norm c1 = norm X1 := by
+    intro v i c0 hfind
+    obtain ⟨hw, c, X, hfc, hspec, hn⟩ := hinv.rows v i c0 hfind
+    obtain ⟨hw1, c1, X1, hc1, hX1, hn1⟩ := step_inv rb (hfresh v i c0 hfind) hw (hper v i c0 hfind) ⟨X, hspec, hn⟩
+    exact ⟨hw1, c, c1, X1, hfc, hc1, hX1, hn1⟩
+  have hrowok : ∀ v i c, findC v i s.cs = some c → ∃ c', stepH codeTable rb c (projOp v i op) = .ok c' := by
+    intro v i c hfc
+    obtain ⟨c0, hc0⟩ := findC_of_keys hinv.same hfc
+    obtain ⟨_, c', c1, _, hfc', hc1, _, _⟩ := hstep v i c0 hc0
+    rw [hfc] at hfc'; cases hfc'
+    exact ⟨c1, hc1⟩
+  -- the global step succeeds
+  have hnd : opNodup op := by
+    cases op with
+    | apply h ch =>
+      obtain ⟨X, _, hwf⟩ := hop
+      simp only [wfApplyP, Bool.and_eq_true] at hwf
+      exact (listsNodupB_iff ch).mp hwf.1.1
+    | revert h ch' =>
+      obtain ⟨ch, below, Xb, _, _, hwf⟩ := hop
+      simp only [wfRevertP, Bool.and_eq_true] at hwf
+      exact (listsNodupB_iff ch').mp hwf.1.1
+  have hex : ∀ k ∈ needOf (match op with | .apply _ ch => ch | .revert _ ch => ch), (findC k.1 k.2 s.cs).isSome = true := by
+    cases op with
+    | apply h ch =>
+      obtain ⟨X, hX, hwf⟩ := hop
+      simp only [wfApplyP, Bool.and_eq_true] at hwf
+      intro k hk
+      rw [isSome_of_keys (hinv.same.trans (specG_keys s0 stk X hX).symm)]
+      exact needOf_of_idsExist hwf.1.2 k hk
+    | revert h ch' =>
+      obtain ⟨ch, below, Xb, _, hXb, hwf⟩ := hop
+      simp only [wfRevertP, Bool.and_eq_true] at hwf
+      intro k hk
+      rw [isSome_of_keys (hinv.same.trans (specG_keys s0 below Xb hXb).symm)]
+      exact needOf_of_idsExist hwf.1.2 k hk
+  have htot : ∃ s1, stepG rb s op = .ok s1 := by
+    cases op with
+    | apply h ch => exact applyBlock_total codeTable_cellsOK hinv.keys hinv.minv hnd hex hrowok
+    | revert h ch' =>
+      refine revertContracts_total codeTable_cellsOK hinv.keys hinv.minv hnd hex ?_
+      intro v i c hfc
+      obtain ⟨c', hc'⟩ := hrowok v i c hfc
+      exact ⟨c', by simpa [stepH, projOp] using hc'⟩
+  obtain ⟨s1, hs1⟩ := htot
+  refine ⟨s1, hs1, ?_⟩
+  have hkeys1 : s1.cs.map keyOf = s.cs.map keyOf := by
+    cases op with
+    | apply h ch => exact applyBlock_keeps codeTable rb h ch s s1 hs1
+    | revert h ch' => exact revertContracts_keeps codeTable h ch' s s1 hs1
+  have hlook : ∀ v i, findC v i s1.cs = optApply (fun c => stepH codeTable rb c (projOp v i op)) (findC v i s.cs) := by
+    intro v i
+    cases op with
+    | apply h ch => exact applyBlock_lookup hnd hinv.keys hs1 v i
+    | revert h ch' => exact revertBlock_lookup hnd hs1 v i
+  refine ⟨by unfold KeysNodup; rw [hkeys1]; exact hinv.keys, ?_, hkeys1.trans hinv.same, ?_, ?_⟩
+  · cases op with
+    | apply h ch => exact applyBlock_pres codeTable_cellsOK rb h ch s s1 hinv.minv hs1
+    | revert h ch' => exact revertContracts_pres codeTable_cellsOK h ch' s s1 hinv.minv hs1
+  · intro b hb
+    cases op with
+    | apply h ch =>
+      simp only [nextG, List.mem_cons] at hb
+      rcases hb with rfl | hb
+      · exact hnd
+      · exact hinv.nodup b hb
+    | revert h ch' => exact hinv.nodup b (List.mem_of_mem_tail hb)
+  · intro v i c0 hfind
+    obtain ⟨hw1, c, c1, X1, hfc, hc1, hX1, hn1⟩ := hstep v i c0 hfind
+    rw [← nextStk_proj]
+    refine ⟨hw1, c1, X1, ?_, hX1, hn1⟩
+    rw [hlook v i, hfc]
+    simp only [optApply, hc1]
+
+/-- **C01, totality ("processing a well-formed update never returns an error or panics").**  Starting
+from a store whose contracts are as `AddContract` stored them and whose metrics equal the
+recomputation, every history of block connections and disconnections that is well-formed against
+the best chain is processed by the store model without a fault. -/
+theorem C01_wf_update_never_fails (rb : Nat) (s0 : State) (hk : KeysNodup s0.cs) (hm : MInv s0)
+    (hfresh : ∀ v i c0, findC v i s0.cs = some c0 → Fresh c0) (ops : List GOp) (hwf : WFG s0 [] ops) :
+    ∃ s', runG rb s0 ops = .ok s' := by
+  have hgen : ∀ (ops : List GOp) (stk : List (Nat × Changes)) (s : State), TInv s0 stk s → WFG s0 stk ops →
+      ∃ s', runG rb s ops = .ok s' := by
+    intro ops
+    induction ops with
+    | nil => intro stk s _ _; exact ⟨s, rfl⟩
+    | cons op rest ih =>
+      intro stk s hinv hw
+      obtain ⟨hop, hrest⟩ := hw
+      obtain ⟨s1, hs1, hinv1⟩ := TInv_step hfresh rb hinv hop
+      obtain ⟨s', hs'⟩ := ih (nextG stk op) s1 hinv1 hrest
+      exact ⟨s', by simp [runG, bind, Except.bind, hs1, hs']⟩
+  refine hgen ops [] s0 ⟨hk, hm, rfl, by simp, ?_⟩ hwf
+  intro v i c0 hfind
+  exact ⟨trivial, c0, c0, hfind, rfl, rfl⟩
+
 /-! ### non-vacuity -/
 
 def wfStepGB (s0 : State) (stk : List (Nat × Changes)) : GOp → Bool
@@ -202,5 +350,11 @@ theorem wfGB_sound {s0 : State} : ∀ (stk : List (Nat × Changes)) (ops : List 
 /-- the reorg history `exG` of `Props/C01.lean` (v1 revision reorged out, v2 block that revises and
 renews the same contract) is globally well-formed -/
 example : WFG exS [] exG := wfGB_sound _ _ (by decide)
+example : MInv exS := by unfold MInv; rfl
+example : ∀ v i c0, findC v i exS.cs = some c0 → Fresh c0 := by
+  intro v i c0 h
+  have := findC_mem h
+  simp only [exS, List.mem_cons, List.mem_nil_iff, or_false] at this
+  rcases this with rfl | rfl <;> simp [Fresh, exV1, ex0]
 
 end Hostd.Chain
